@@ -43,11 +43,17 @@ VARIABLES l,        \* next line to consume
           claims,   \* set of <<task, counter>> that entered CLAIMED
           seen,     \* promise id -> first terminal Final() observed in a reply
           cfg,      \* configuration of the run
+          path,     \* the states the last event went through: <<pdb, db>>, or for a commit
+                    \* that level A explains, the database after each transaction of the batch
+          cyc,      \* background instance id -> roots it has dispatched (C08: one per root)
+          q0,       \* [t, db] when the clients stopped ("quiesce" event), for C11
+          rerr,     \* owners (request ids) whose router consultation failed
           chk       \* verdicts about the last event (see Check*)
 
-vars == <<l, db, pdb, exp, now, reqs, cand, snaps, faulted, sends, lapsed, claims, seen, cfg, chk>>
+vars == <<l, db, pdb, exp, now, reqs, cand, snaps, faulted, sends, lapsed, claims, seen, cfg, path, cyc, q0, rerr, chk>>
 
-NoChk == [tables |-> {}, who |-> "", resp |-> "", why |-> "", drift |-> "", dup |-> {}, lint |-> {}]
+NoChk == [tables |-> {}, who |-> "", owners |-> {}, resp |-> "", why |-> "", drift |-> "", dup |-> {}, lint |-> {},
+          dupRoot |-> FALSE]
 
 \* known findings met during validation are collected in TLC register 42 and printed
 \* by the postcondition (the check turns them into KNOWN-FINDING lines)
@@ -131,6 +137,13 @@ F14Effect(S, tx, w) ==
   IF IsF14(tx, w) /\ "F14" \in Known /\ NoteFinding("F14")
   THEN [S EXCEPT !.tasks = CompleteTasksOf(@, tx.cmds[w].id, tx.dt)] ELSE S
 
+\* Known finding F13: when the router consultation of a plain create fails (queue full,
+\* injected failure) the error is only logged and the routed promise is inserted WITHOUT
+\* its invoke task.
+IsF13(S, tx, prim, rq) ==
+  /\ rq.kind = "CreatePromise" /\ prim.k = "CreatePromise" /\ tx.o \in rerr
+  /\ Routed(rq.args.tags) /\ ~ Has(S.promises, rq.args.id)
+
 TxStep(S, tx, cd, sn, post) ==
   LET w == FirstWrite(tx.cmds) IN
   IF w = 0
@@ -150,6 +163,13 @@ TxStep(S, tx, cd, sn, post) ==
            ELSE IF rq.kind \in {"SearchPromises", "SearchSchedules"}
            THEN [S |-> IF prim.k = "UpdatePromise" THEN TimeoutP(S, prim.id, tx.dt) ELSE S,
                  cand |-> cd, snaps |-> sn, drift |-> ""]
+           ELSE IF IsF13(S, tx, prim, rq) /\ "F13" \in Known /\ NoteFinding("F13")
+           THEN LET tau == DecisionTick(S, prim, tx.dt, rq.t, post)
+                    S2 == Apply(S, PromiseCmd(rq.args, tau))
+                IN [S |-> S2,
+                    cand |-> AddTo(cd, tx.o, [res |-> [status |-> CREATED, promise |-> Some(PBody(S2, rq.args.id))],
+                                              t |-> tau]),
+                    snaps |-> sn, drift |-> ""]
            ELSE LET tau == DecisionTick(S, prim, tx.dt, rq.t, post)
                     o == IF rq.kind = "CreatePromiseAndTask"
                          THEN OpCreatePromiseAndTask2(S, rq.args, tau, TaskTick(S, prim, tau, rq.t, post))
@@ -188,12 +208,13 @@ TxStep(S, tx, cd, sn, post) ==
              [S |-> SweepFold(S, tx.cmds, 1, tx, tx.bg), cand |-> cd, snaps |-> sn, drift |-> ""]
         [] OTHER -> [S |-> S, cand |-> cd, snaps |-> sn, drift |-> "unknown background kind"]
 
-RECURSIVE FoldTxs(_, _, _, _, _, _, _)
-FoldTxs(S, txs, i, cd, sn, post, drift) ==
-  IF i > Len(txs) THEN [S |-> S, cand |-> cd, snaps |-> sn, drift |-> drift]
+RECURSIVE FoldTxs(_, _, _, _, _, _, _, _)
+FoldTxs(S, txs, i, cd, sn, post, drift, pth) ==
+  IF i > Len(txs) THEN [S |-> S, cand |-> cd, snaps |-> sn, drift |-> drift, path |-> pth]
   ELSE LET st == TxStep(S, txs[i], cd, sn, post)
        IN FoldTxs(st.S, txs, i + 1, st.cand, st.snaps, post,
-                  IF st.drift # "" /\ drift = "" THEN st.drift ELSE drift)
+                  IF st.drift # "" /\ drift = "" THEN st.drift ELSE drift,
+                  IF st.S = S THEN pth ELSE Append(pth, st.S))
 
 \* the claim step stores the attempt counter it read earlier; the counter is advisory and
 \* outside every listed property, so task rows are compared modulo attempt when they
@@ -218,6 +239,7 @@ Init ==
   /\ l = 1 /\ db = EmptyDB /\ pdb = EmptyDB /\ exp = EmptyDB /\ now = 0
   /\ reqs = <<>> /\ cand = <<>> /\ snaps = <<>> /\ faulted = {} /\ sends = <<>>
   /\ lapsed = {} /\ claims = {} /\ seen = <<>> /\ cfg = <<>> /\ chk = NoChk
+  /\ path = <<EmptyDB>> /\ cyc = <<>> /\ q0 = [t |-> -1, db |-> EmptyDB] /\ rerr = {}
 
 Consume == l <= Len(TraceLog) /\ l' = l + 1
 
@@ -226,18 +248,19 @@ EReset ==
   /\ db' = EmptyDB /\ pdb' = EmptyDB /\ exp' = EmptyDB /\ now' = Ev.t
   /\ reqs' = <<>> /\ cand' = <<>> /\ snaps' = <<>> /\ faulted' = {} /\ sends' = <<>>
   /\ lapsed' = {} /\ claims' = {} /\ seen' = <<>> /\ cfg' = Ev.cfg /\ chk' = NoChk
+  /\ path' = <<EmptyDB>> /\ cyc' = <<>> /\ q0' = [t |-> -1, db |-> EmptyDB] /\ rerr' = {}
 
 ESubmit ==
   /\ Consume /\ Ev.e = "submit"
-  /\ reqs' = Put(reqs, Ev.r, [kind |-> Ev.kind, args |-> Ev.args, t |-> Ev.t])
-  /\ pdb' = db /\ chk' = NoChk
-  /\ UNCHANGED <<db, exp, now, cand, snaps, faulted, sends, lapsed, claims, seen, cfg>>
+  /\ reqs' = Put(reqs, Ev.r, [kind |-> Ev.kind, args |-> Ev.args, t |-> Ev.t, l |-> l])
+  /\ pdb' = db /\ chk' = NoChk /\ path' = <<db>>
+  /\ UNCHANGED <<db, exp, now, cand, snaps, faulted, sends, lapsed, claims, seen, cfg, cyc, q0, rerr>>
 
 ETick ==
   /\ Consume /\ Ev.e = "tick"
   /\ now' = Ev.t /\ lapsed' = lapsed \cup LapsedIn(db, Ev.t)
-  /\ pdb' = db /\ chk' = NoChk
-  /\ UNCHANGED <<db, exp, reqs, cand, snaps, faulted, sends, claims, seen, cfg>>
+  /\ pdb' = db /\ chk' = NoChk /\ path' = <<db>>
+  /\ UNCHANGED <<db, exp, reqs, cand, snaps, faulted, sends, claims, seen, cfg, cyc, q0, rerr>>
 
 NewClaims(P, Q) ==
   {<<x, Q.tasks[x].counter>> : x \in {y \in DOMAIN Q.tasks :
@@ -248,8 +271,8 @@ ECommit ==
   /\ Consume /\ Ev.e = "commit"
   /\ LET failedPre == Ev.fail = "pre" \/ Ev.err
          post == PostOf(Ev, db)
-         f == IF failedPre THEN [S |-> db, cand |-> cand, snaps |-> snaps, drift |-> ""]
-              ELSE FoldTxs(db, Ev.txs, 1, cand, snaps, post, "")
+         f == IF failedPre THEN [S |-> db, cand |-> cand, snaps |-> snaps, drift |-> "", path |-> <<db>>]
+              ELSE FoldTxs(db, Ev.txs, 1, cand, snaps, post, "", <<db>>)
          E == NormAttempt(f.S, post)
      IN /\ exp' = E
         /\ db' = post /\ pdb' = db
@@ -257,11 +280,14 @@ ECommit ==
         /\ faulted' = IF Ev.fail # "none" \/ Ev.err THEN faulted \cup OwnerIds(Ev.txs) ELSE faulted
         /\ lapsed' = lapsed \cup LapsedIn(post, now)
         /\ claims' = claims \cup NewClaims(db, post)
+        /\ path' = IF DiffTables(E, post) = {} /\ Len(f.path) >= 2
+                    THEN [i \in DOMAIN f.path |-> IF i = Len(f.path) THEN post ELSE f.path[i]]
+                    ELSE <<db, post>>
         /\ chk' = [NoChk EXCEPT !.tables = DiffTables(E, post),
-                                !.who = ToString(Owners(Ev.txs)),
+                                !.who = ToString(Owners(Ev.txs)), !.owners = Owners(Ev.txs),
                                 !.drift = f.drift,
                                 !.dup = NewClaims(db, post) \cap claims]
-  /\ UNCHANGED <<now, reqs, sends, seen, cfg>>
+  /\ UNCHANGED <<now, reqs, sends, seen, cfg, cyc, q0, rerr>>
 
 \* promise bodies carried by a response
 BodiesOf(kind, b) ==
@@ -313,41 +339,54 @@ ERespond ==
                                 !.why = IF Ev.n # 1 THEN "second reply" ELSE ""]
         /\ seen' = [id \in (DOMAIN seen) \cup {b.id : b \in finals} |->
                       IF id \in DOMAIN seen THEN seen[id]
-                      ELSE Final(CHOOSE b \in finals : b.id = id)]
-  /\ pdb' = db
-  /\ UNCHANGED <<db, exp, now, reqs, cand, snaps, faulted, sends, lapsed, claims, cfg>>
+                      ELSE [final |-> Final(CHOOSE b \in finals : b.id = id), l |-> l]]
+  /\ pdb' = db /\ path' = <<db>>
+  /\ UNCHANGED <<db, exp, now, reqs, cand, snaps, faulted, sends, lapsed, claims, cfg, cyc, q0, rerr>>
 
 ESend ==
   /\ Consume /\ Ev.e = "send"
   /\ sends' = Put(sends, <<Ev.task, Ev.counter>>, [dt |-> Ev.dt, outcome |-> Ev.outcome, t |-> Ev.t])
-  /\ pdb' = db /\ chk' = NoChk
-  /\ UNCHANGED <<db, exp, now, reqs, cand, snaps, faulted, lapsed, claims, seen, cfg>>
+  /\ LET root == IF Has(db.tasks, Ev.task) THEN db.tasks[Ev.task].rootId ELSE "?" IN
+     /\ cyc' = AddTo(cyc, Ev.o, root)
+     /\ chk' = [NoChk EXCEPT !.dupRoot = root \in GetOr(cyc, Ev.o, {})]
+  /\ pdb' = db /\ path' = <<db>>
+  /\ UNCHANGED <<db, exp, now, reqs, cand, snaps, faulted, lapsed, claims, seen, cfg, q0, rerr>>
 
 ERoute ==
   /\ Consume /\ Ev.e = "route"
-  /\ pdb' = db /\ chk' = NoChk
-  /\ UNCHANGED <<db, exp, now, reqs, cand, snaps, faulted, sends, lapsed, claims, seen, cfg>>
+  /\ rerr' = IF Ev.err THEN rerr \cup {Ev.o} ELSE rerr
+  /\ pdb' = db /\ chk' = NoChk /\ path' = <<db>>
+  /\ UNCHANGED <<db, exp, now, reqs, cand, snaps, faulted, sends, lapsed, claims, seen, cfg, cyc, q0>>
 
 \* the process dies: in-flight requests lose their responses, the database stays
 ECrash ==
   /\ Consume /\ Ev.e = "crash"
-  /\ pdb' = db /\ chk' = NoChk
-  /\ UNCHANGED <<db, exp, now, reqs, cand, snaps, faulted, sends, lapsed, claims, seen, cfg>>
+  /\ pdb' = db /\ chk' = NoChk /\ path' = <<db>>
+  /\ UNCHANGED <<db, exp, now, reqs, cand, snaps, faulted, sends, lapsed, claims, seen, cfg, cyc, q0, rerr>>
+
+\* the clients have stopped and every request has been answered: from here on only the
+\* background coroutines run (C11)
+EQuiesce ==
+  /\ Consume /\ Ev.e = "quiesce"
+  /\ q0' = [t |-> Ev.t, db |-> db]
+  /\ pdb' = db /\ chk' = NoChk /\ path' = <<db>>
+  /\ UNCHANGED <<db, exp, now, reqs, cand, snaps, faulted, sends, lapsed, claims, seen, cfg, cyc, rerr>>
 
 \* restart / end / observe carry a fresh projection: it must be the database we know
 EObserve ==
   /\ Consume /\ Ev.e \in {"restart", "end", "observe"}
   /\ pdb' = db /\ db' = PostOf(Ev, db) /\ exp' = db
   /\ chk' = [NoChk EXCEPT !.tables = DiffTables(db, PostOf(Ev, db)), !.who = Ev.e]
-  /\ UNCHANGED <<now, reqs, cand, snaps, faulted, sends, lapsed, claims, seen, cfg>>
+  /\ path' = <<db, PostOf(Ev, db)>>
+  /\ UNCHANGED <<now, reqs, cand, snaps, faulted, sends, lapsed, claims, seen, cfg, cyc, q0, rerr>>
 
 EOther ==
   /\ Consume /\ Ev.e \notin {"reset", "submit", "tick", "commit", "respond", "send", "route", "crash",
-                            "restart", "end", "observe"}
-  /\ pdb' = db /\ chk' = NoChk
-  /\ UNCHANGED <<db, exp, now, reqs, cand, snaps, faulted, sends, lapsed, claims, seen, cfg>>
+                            "restart", "end", "observe", "quiesce"}
+  /\ pdb' = db /\ chk' = NoChk /\ path' = <<db>>
+  /\ UNCHANGED <<db, exp, now, reqs, cand, snaps, faulted, sends, lapsed, claims, seen, cfg, cyc, q0, rerr>>
 
-Next == EReset \/ ESubmit \/ ETick \/ ECommit \/ ERespond \/ ESend \/ ERoute \/ ECrash \/ EObserve \/ EOther
+Next == EReset \/ ESubmit \/ ETick \/ ECommit \/ ERespond \/ ESend \/ ERoute \/ ECrash \/ EQuiesce \/ EObserve \/ EOther
 
 Spec == Init /\ [][Next]_vars
 
@@ -370,6 +409,10 @@ IsCommit == Last.e = "commit"
 IsRespond == Last.e = "respond"
 IsStep == Last.e \in {"commit", "restart", "end", "observe"}
 
+\* Step properties are evaluated on every consecutive pair of the states the last event
+\* went through (for a batch that level A explains: after each of its transactions).
+Steps(P(_, _)) == \A i \in 1..(Len(path) - 1) : P(path[i], path[i + 1])
+
 \* --- C02
 C02_EveryChangeIsAnOp == IsStep => chk.tables = {}
 C02_ResponseIsLinearizable == IsRespond => chk.resp = ""
@@ -377,46 +420,55 @@ NoDrift == chk.drift \in {"", "orphan firing"}
 
 \* --- C01
 RespBodies == IF IsRespond THEN BodiesOf(reqs[Last.r].kind, Last.body) ELSE {}
-SendBodies == IF Last.e = "send" THEN Range(Last.promise) ELSE {}
-C01_WriteOnceT == IsStep => C01_WriteOnce(pdb, db)
-C01_PendingLeavesOnceT == IsStep => C01_PendingLeavesOnce(pdb, db)
-C01_CreationImmutableT == IsStep => C01_CreationImmutable(pdb, db)
-C01_NeverDisappearsT == IsStep => C01_NeverDisappears(pdb, db)
-C01_BornPendingT == IsStep => C01_BornPending(pdb, db)
+\* only a notification carries the promise to the receiver
+SendBodies == IF Last.e = "send" /\ Last.type = "notify" THEN Range(Last.promise) ELSE {}
+C01_WriteOnceT == Steps(C01_WriteOnce)
+C01_PendingLeavesOnceT == Steps(C01_PendingLeavesOnce)
+C01_CreationImmutableT == Steps(C01_CreationImmutable)
+C01_NeverDisappearsT == Steps(C01_NeverDisappears)
+C01_BornPendingT == Steps(C01_BornPending)
+\* every observed body agrees with the store; all terminal observations of a promise are
+\* identical; and a request submitted after somebody was told the promise is completed is
+\* never told it is pending
 C01_ObservationsAgree ==
-  \A b \in RespBodies \cup SendBodies :
-     /\ C01_BodyAgrees(db, b)
-     /\ (b.id \in DOMAIN seen /\ b.state \in TerminalStates) => Final(b) = seen[b.id]
-     /\ b.id \in DOMAIN seen => b.state \in TerminalStates
+  /\ \A b \in RespBodies \cup SendBodies :
+        /\ C01_BodyAgrees(db, b)
+        /\ (b.id \in DOMAIN seen /\ b.state \in TerminalStates) => Final(b) = seen[b.id].final
+  /\ \A b \in RespBodies :
+        (b.id \in DOMAIN seen /\ reqs[Last.r].l > seen[b.id].l) => b.state \in TerminalStates
+  /\ \A b \in SendBodies : b.state \in TerminalStates
 
 \* --- C03 (the decision tables are inside the level-A operators; here: the commits and
 \*     replies of create / complete requests)
 CreateCompleteKinds == {"CreatePromise", "CreatePromiseAndTask", "CompletePromise"}
 C03_RepeatChangesNothing ==
-  (IsCommit /\ \E i \in DOMAIN Last.txs : Last.txs[i].bg = "" /\ Has(reqs, Last.txs[i].o)
-                                         /\ reqs[Last.txs[i].o].kind \in CreateCompleteKinds)
-     => chk.tables \cap {"promises", "porder", "tasks", "callbacks"} = {}
+  (IsCommit /\ chk.owners \cap CreateCompleteKinds # {})
+     => chk.tables \cap {"promises", "porder"} = {}
 C03_StatusTable == (IsRespond /\ reqs[Last.r].kind \in CreateCompleteKinds) => chk.resp = ""
 
 \* --- C04
 TimedKinds == {"ReadPromise", "CreatePromise", "CreatePromiseAndTask", "CompletePromise", "SearchPromises"}
-\* the clock reading that counts is the one of the linearization point of the reply
 \* Known finding F3: a promise created with a timeout that is already in the past is
 \* stored and reported as pending by the create request itself.
 Dev_F3(b) == Last.body.status = CREATED /\ b.timeout <= b.createdOn
+\* the clock reading that counts is the one of the linearization point of the reply
 C04_NoPendingAfterDeadline ==
   (IsRespond /\ reqs[Last.r].kind \in TimedKinds /\ chk.lint # {}) =>
      \A b \in RespBodies :
         \/ \E tau \in chk.lint : C04_NotPendingAfterDeadline(b, tau)
         \/ "F3" \in Known /\ Dev_F3(b) /\ NoteFinding("F3")
 C04_NoTimeoutBeforeDeadlineT == IsStep => C04_NoTimeoutBeforeDeadline(db, now)
-C04_CompletionShapeT == IsStep => C04_CompletionShape(pdb, db)
+C04_CompletionShapeT == Steps(C04_CompletionShape)
+\* every decision "user completion or time-out" is the one level A takes at the clock
+\* reading of the deciding step (before / exactly at / after the deadline)
+C04_DecidedByClock == IsStep => "promises" \notin chk.tables
 
 \* --- C05
-C05_NoOrphanRegistrationT == C05_NoOrphanRegistration(db)
-C05_RegistrationsConvertedT == IsStep => C05_RegistrationsConverted(pdb, db)
-C05_NoneLeftBehindT == IsStep => C05_NoneLeftBehind(pdb, db)
-C05_ConvertedTaskIsLiveT == IsStep => C05_ConvertedTaskIsLive(pdb, db)
+C05_NoOrphanRegistrationT == \A i \in DOMAIN path : C05_NoOrphanRegistration(path[i])
+C05_RegistrationsConvertedT == Steps(C05_RegistrationsConverted)
+C05_NoneLeftBehindT == Steps(C05_NoneLeftBehind)
+C05_ConvertedTaskIsLiveT == Steps(C05_ConvertedTaskIsLive)
+C05_WakeChanges == IsStep => "callbacks" \notin chk.tables
 C05_AckMeansRegisteredOrCompletedT ==
   (IsRespond /\ reqs[Last.r].kind \in {"CreateCallback", "CreateSubscription"}
    /\ Last.body.status \in {OK, CREATED} /\ IsSome(Last.body.promise)) =>
@@ -425,29 +477,84 @@ C05_AckMeansRegisteredOrCompletedT ==
                  ELSE SubscriptionId(a.promiseId, a.id)
      IN C05_AckMeansRegisteredOrCompleted(db, The(Last.body.promise), cbid)
 
+\* --- C06
+MutationKinds == {"CreatePromise", "CreatePromiseAndTask", "CompletePromise", "CreateCallback",
+                  "CreateSubscription", "CreateSchedule", "DeleteSchedule", "AcquireLock", "ReleaseLock",
+                  "ClaimTask", "CompleteTask", "HeartbeatTasks", "HeartbeatLocks"}
+\* the database found after a restart is the last committed one, whole
+C06_RestartKeepsState == Last.e \in {"restart", "end", "observe"} => chk.tables = {}
+\* an acknowledgement is only given for an effect that was committed
+C06_AckedIsCommitted ==
+  (IsRespond /\ reqs[Last.r].kind \in MutationKinds /\ ~ Last.err) => chk.resp = ""
+
 \* --- C07
-C07_CountersNeverDecreaseT == IsStep => C07_CountersNeverDecrease(pdb, db)
-C07_FinishedIsAbsorbingT == IsStep => C07_FinishedIsAbsorbing(pdb, db)
-C07_TasksNeverDisappearT == IsStep => C07_TasksNeverDisappear(pdb, db)
-C07_ClaimGuardT == IsStep => C07_ClaimGuard(pdb, db)
-C07_LeaseHonouredT == IsStep => C07_LeaseHonoured(pdb, db, lapsed)
-C07_FencingOnReclaimT == IsStep => C07_FencingOnReclaim(pdb, db)
-\* no pair <<task, counter>> is claimed twice: a successful claim reply names a pair that
-\* no earlier successful claim reply named
+TaskOwnerKinds == {"ClaimTask", "CompleteTask", "HeartbeatTasks", "TimeoutTasks"}
+C07_CountersNeverDecreaseT == Steps(C07_CountersNeverDecrease)
+C07_FinishedIsAbsorbingT == Steps(C07_FinishedIsAbsorbing)
+C07_TasksNeverDisappearT == Steps(C07_TasksNeverDisappear)
+C07_ClaimGuardT == Steps(C07_ClaimGuard)
+C07_LeaseHonouredT == \A i \in 1..(Len(path) - 1) : C07_LeaseHonoured(path[i], path[i + 1], lapsed)
+C07_FencingOnReclaimT == Steps(C07_FencingOnReclaim)
+\* no pair <<task, counter>> enters CLAIMED twice
 C07_OneClaimPerCounter == IsCommit => chk.dup = {}
+C07_TaskChanges == (IsStep /\ chk.owners \cap TaskOwnerKinds # {}) => "tasks" \notin chk.tables
+C07_TaskReplies == (IsRespond /\ reqs[Last.r].kind \in {"ClaimTask", "CompleteTask", "HeartbeatTasks"}) => chk.resp = ""
 
 \* --- C08
-C08_RoutedHasTaskT == IsStep => C08_RoutedHasTask(pdb, db)
-C08_FinishedWithPromiseT == IsStep => C08_FinishedWithPromise(pdb, db)
-C08_NoActiveInvokeOfCompletedT == C08_NoActiveInvokeOfCompleted(db)
+\* (promises created under the known finding F13 are exempt: they are reported separately)
+F13Promises ==
+  IF IsCommit /\ "F13" \in Known
+  THEN {reqs[Last.txs[i].o].args.id : i \in {j \in DOMAIN Last.txs :
+          Last.txs[j].bg = "" /\ Has(reqs, Last.txs[j].o) /\ Last.txs[j].o \in rerr
+          /\ reqs[Last.txs[j].o].kind = "CreatePromise"}}
+  ELSE {}
+C08_RoutedHasTaskT ==
+  \A i \in 1..(Len(path) - 1) :
+     C08_RoutedHasTask([path[i] EXCEPT !.promises = [id \in (DOMAIN @) \cup (F13Promises \cap DOMAIN path[i + 1].promises) |->
+                                                      IF id \in DOMAIN @ THEN @[id] ELSE path[i + 1].promises[id]]],
+                       path[i + 1])
+C08_FinishedWithPromiseT == Steps(C08_FinishedWithPromise)
+C08_NoActiveInvokeOfCompletedT == \A i \in DOMAIN path : C08_NoActiveInvokeOfCompleted(path[i])
 C08_DispatchSelectionT == Last.e = "send" => C08_DispatchSelection(db, Last.task, Last.counter)
+C08_OnePerRootPerCycle == Last.e = "send" => ~ chk.dupRoot
+\* the dispatched message names the task and the counter with which a claim succeeds, and
+\* carries the three links for exactly that pair; a notification carries the promise
+C08_MessageNamesTask ==
+  (Last.e = "send" /\ Last.handed) =>
+     LET base == "http://resonate.test/tasks/"
+         sfx == Last.task \o "/" \o ToString(Last.counter) IN
+     /\ Has(db.tasks, Last.task) /\ db.tasks[Last.task].counter = Last.counter
+     /\ IF Last.type = "notify"
+        THEN /\ "promise" \in DOMAIN Last.body /\ IsSome(Last.promise)
+             /\ Last.body.promise.id = The(Last.promise).id
+             /\ The(Last.promise).id = db.tasks[Last.task].rootId
+        ELSE /\ "task" \in DOMAIN Last.body /\ "href" \in DOMAIN Last.body
+             /\ Last.body.task.id = Last.task /\ Last.body.task.counter = Last.counter
+             /\ Last.body.href.claim = base \o "claim/" \o sfx
+             /\ Last.body.href.complete = base \o "complete/" \o sfx
+             /\ Last.body.href.heartbeat = base \o "heartbeat/" \o sfx
+C08_TaskChanges == (IsStep /\ "EnqueueTasks" \in chk.owners) => "tasks" \notin chk.tables
 
 \* --- C09
-C09_LockTables == IsStep => chk.tables \cap {"locks"} = {}
+LockKinds == {"AcquireLock", "ReleaseLock", "HeartbeatLocks"}
+C09_LockTables == IsStep => "locks" \notin chk.tables
+C09_LockReplies == (IsRespond /\ reqs[Last.r].kind \in LockKinds) => chk.resp = ""
+C09_NoTransferInPlaceT == Steps(C09_NoTransferInPlace)
 
 \* --- C10
-C10_AdvancesByOneT == IsStep => C10_AdvancesByOne(pdb, db)
-C10_NotEarlyT == IsStep => C10_NotEarly(pdb, db, now)
-C10_FiringCreatesPromiseT == IsStep => C10_FiringCreatesPromise(pdb, db)
+ScheduleKinds == {"CreateSchedule", "ReadSchedule", "DeleteSchedule"}
+C10_AdvancesByOneT == Steps(C10_AdvancesByOne)
+C10_NotEarlyT == \A i \in 1..(Len(path) - 1) : C10_NotEarly(path[i], path[i + 1], now)
+C10_FiringCreatesPromiseT == Steps(C10_FiringCreatesPromise)
 C10_NextAfterCreationT == C10_NextAfterCreation(db)
+C10_ScheduleChanges == IsStep => chk.tables \cap {"schedules", "sorder"} = {}
+C10_ScheduleReplies == (IsRespond /\ reqs[Last.r].kind \in ScheduleKinds) => chk.resp = ""
+
+\* --- C11: when the run ends (the harness has let the background coroutines run the
+\* configured number of cycles after the clients stopped at q0.t) nothing that was overdue
+\* at q0.t is left, and no task that was dispatchable then is still waiting untouched
+C11_ConvergedAtEnd ==
+  (Last.e = "end" /\ q0.t >= 0) =>
+     /\ Converged(db, q0.t)
+     /\ \A x \in EnqueueableTasks(db) \cap EnqueueableTasks(q0.db) : db.tasks[x] # q0.db.tasks[x]
 =============================================================================
